@@ -254,14 +254,33 @@ func Normalize(dir string, overlay map[string][]byte, goarch string, baseline ma
 							}
 							callee := calleeFunc(pk.TypesInfo, call)
 							c := cands[callee]
+							nested := false
+							if c == nil {
+								// one level of nesting: a candidate call that is a direct argument of the statement's
+								// call, with only side-effect free arguments before it
+								for _, a := range call.Args {
+									if ic, ok := a.(*ast.CallExpr); ok {
+										if cc := cands[calleeFunc(pk.TypesInfo, ic)]; cc != nil {
+											call, callee, c, nested = ic, calleeFunc(pk.TypesInfo, ic), cc, true
+										}
+										break
+									}
+									if !simpleExpr(a) {
+										break
+									}
+								}
+							}
 							if c == nil || callee == self || c.pk != pk {
+								continue
+							}
+							if nested && c.obj.Type().(*types.Signature).Results().Len() != 1 {
 								continue
 							}
 							if !importsCompatible(pk.TypesInfo, c.decl, f, pk) {
 								continue
 							}
 							counter++
-							es, ok := inlineAt(pk, f, text, st, call, c, src, counter)
+							es, ok := inlineAt(pk, f, text, st, call, c, src, counter, nested)
 							if !ok {
 								continue
 							}
@@ -501,7 +520,22 @@ func calleeFunc(info *types.Info, call *ast.CallExpr) *types.Func {
 	return nil
 }
 
-func inlineAt(pk *packages.Package, file *ast.File, text []byte, st ast.Stmt, call *ast.CallExpr, c *inlineCand, src func(string) []byte, id int) ([]edit, bool) {
+// simpleExpr: evaluation has no side effects and cannot be affected by hoisting a call before it.
+func simpleExpr(e ast.Expr) bool {
+	switch x := e.(type) {
+	case *ast.Ident, *ast.BasicLit:
+		return true
+	case *ast.SelectorExpr:
+		return simpleExpr(x.X)
+	case *ast.ParenExpr:
+		return simpleExpr(x.X)
+	case *ast.StarExpr:
+		return simpleExpr(x.X)
+	}
+	return false
+}
+
+func inlineAt(pk *packages.Package, file *ast.File, text []byte, st ast.Stmt, call *ast.CallExpr, c *inlineCand, src func(string) []byte, id int, nested bool) ([]edit, bool) {
 	fset := pk.Fset
 	off := func(p token.Pos) int { return fset.PositionFor(p, false).Offset }
 	helperFile := fset.PositionFor(c.decl.Pos(), false).Filename
@@ -578,22 +612,28 @@ func inlineAt(pk *packages.Package, file *ast.File, text []byte, st ast.Stmt, ca
 		rnames = append(rnames, fmt.Sprintf("%sr%d", pfx, i))
 	}
 	// the statement must use exactly as many values as the helper returns
-	switch x := st.(type) {
-	case *ast.AssignStmt:
-		if len(x.Lhs) != len(ress) {
+	if nested {
+		if len(ress) != 1 {
 			return nil, false
 		}
-	case *ast.IfStmt:
-		if x.Init != nil {
-			if as, ok := x.Init.(*ast.AssignStmt); !ok || len(as.Lhs) != len(ress) {
+	} else {
+		switch x := st.(type) {
+		case *ast.AssignStmt:
+			if len(x.Lhs) != len(ress) {
 				return nil, false
 			}
-		} else if len(ress) != 1 {
-			return nil, false
-		}
-	case *ast.ReturnStmt:
-		if len(ress) == 0 {
-			return nil, false
+		case *ast.IfStmt:
+			if x.Init != nil {
+				if as, ok := x.Init.(*ast.AssignStmt); !ok || len(as.Lhs) != len(ress) {
+					return nil, false
+				}
+			} else if len(ress) != 1 {
+				return nil, false
+			}
+		case *ast.ReturnStmt:
+			if len(ress) == 0 {
+				return nil, false
+			}
 		}
 	}
 	// argument temporaries, evaluated in the caller's scope
@@ -689,8 +729,11 @@ func inlineAt(pk *packages.Package, file *ast.File, text []byte, st ast.Stmt, ca
 	es = append(es, edit{off(st.Pos()), off(st.Pos()), b.String()})
 	switch st.(type) {
 	case *ast.ExprStmt:
-		es = append(es, edit{off(st.Pos()), off(st.End()), "{\n}"})
-		// merge: a single edit replacing the statement
+		if nested {
+			es = append(es, edit{off(call.Pos()), off(call.End()), strings.Join(rnames, ", ")})
+			break
+		}
+		// a single edit replacing the statement
 		es = []edit{{off(st.Pos()), off(st.End()), b.String() + "{\n}"}}
 	default:
 		es = append(es, edit{off(call.Pos()), off(call.End()), strings.Join(rnames, ", ")})
